@@ -33,7 +33,7 @@ wrvars == <<cfg, st, recv, out, n, ring, hit, remit>>
 
 Branches == {"grow_empty", "grow_contig", "grow_wrapped", "wrap", "wrap_after_drain", "append", "overwrite",
              "purge_nil", "purge_contig", "purge_tail_valid", "purge_tail_expired",
-             "purge_start_eq_len", "purge_tail_stale", "purge_drain", "purge_drain_at_end", "purge_none"}
+             "purge_start_eq_len", "purge_guard_decides", "purge_tail_stale", "purge_drain", "purge_drain_at_end", "purge_none"}
 
 Nil == <<-1, -1>>       \* a freshly made, never written cell (nil interface in Go)
 Ring0 == [win |-> <<>>, cap |-> 0, start |-> 0, stop |-> 0, size |-> 0, fault |-> FALSE]
@@ -98,6 +98,9 @@ RPurge(r, oldest, incl) ==
        THEN LET ns == FirstInc(r.start, r.stop)
             IN res([r EXCEPT !.start = ns, !.size = r.stop - ns], {"purge_contig"})
        ELSE LET hs0 == (IF r.start = l THEN {"purge_start_eq_len"} ELSE {})
+                        \* start = len and window[len-1] (then the NEWEST point) is in range: only the guard
+                        \* keeps purge from taking it for a valid tail (the defect fixed in the code)
+                        \cup (IF r.start = l /\ Inc(At(r, l - 1)) THEN {"purge_guard_decides"} ELSE {})
                         \cup (IF ~live(l - 1) THEN {"purge_tail_stale"} ELSE {})
             IN IF (PurgeGuard => r.start < l) /\ Inc(At(r, l - 1))
                THEN LET ns == FirstInc(r.start, l)
